@@ -135,8 +135,18 @@ class PropCheck:
     def gen_cases(self):
         return []
     def case_chunks(self):
-        """iterable of lists of cases; override for very large case sets"""
-        return [self.gen_cases()]
+        """iterable of lists of cases; large generated sets are processed in slices so that the observations of only one slice are in
+        memory at a time; override to stream case sets that should not even be generated at once"""
+        cases = self.gen_cases()
+        n = getattr(self, 'chunk_size', 30000)
+        if len(cases) <= n:
+            return [cases]
+        def slices():
+            while cases:
+                chunk = cases[:n]
+                del cases[:n]
+                yield chunk
+        return slices()
     def nontrivial(self, case, impl_lines):
         return True
     def predicate(self, case, impl_lines):
